@@ -22,6 +22,7 @@ type pbfs struct {
 	deadline    time.Time
 	workers     int
 	onViolation func(path []Op, f *failure)
+	expandPast  func(f *failure) bool // a failing state that came with a state key is expanded if this says so (listed classes)
 	onState     func(path []Op, key string)
 }
 
@@ -131,7 +132,12 @@ func (b *pbfs) search() pbfsResult {
 						if b.onViolation != nil {
 							b.onViolation(append(decode(frontier[i]), s.op), s.fail)
 						}
-						continue // a violating state is not expanded
+						if b.expandPast == nil || s.key == "" || !b.expandPast(s.fail) {
+							continue // a violating state is not expanded ...
+						}
+						// ... unless its only violation is a listed (known) class and the part
+						// goes on judging behind it: what happens AFTER a known transient
+						// (does the view heal when the statement says it is rebuilt?) is explored
 					}
 					h := hash(s.key)
 					if _, ok := seen[h]; ok {
